@@ -158,11 +158,19 @@ class _Math:
         return getattr(_math, name)
 
     @staticmethod
-    def isclose(a, b, **kw):
+    def isclose(a, b, rel_tol=1e-09, abs_tol=0.0):
         if sx.is_sym(a) or sx.is_sym(b):
             za, zb = sx._coerce(sx.znum(a), sx.znum(b))
-            return sx.SymBool(za == zb)
-        return _math.isclose(a, b, **kw)
+            if za.sort() == z3.IntSort():
+                za, zb = z3.ToReal(za), z3.ToReal(zb)
+            absz = lambda t: z3.If(t >= 0, t, -t)
+            from fractions import Fraction as _F
+            big = z3.If(absz(za) >= absz(zb), absz(za), absz(zb))
+            tol = z3.RealVal(_F(rel_tol)) * big
+            at = z3.RealVal(_F(abs_tol))
+            tol = z3.If(tol >= at, tol, at)
+            return sx.SymBool(z3.Or(za == zb, absz(za - zb) <= tol))
+        return _math.isclose(a, b, rel_tol=rel_tol, abs_tol=abs_tol)
 
     @staticmethod
     def ceil(x):
